@@ -76,6 +76,9 @@ Give == sem' = IF Lim = 0 THEN sem ELSE sem - 1
 \* variables; V is invisible to it when it only reaches env or deferred (lazily rendered) commands
 HashBlind(t) == T(t).vuse = "env" \/ \A e \in Range(ExpCmds(t)) : e.k # "sh"
 
+\* run: once is keyed by the DEFINITION (Taskfile location + local name, internal/hash.Name): a file included under
+\* several namespaces contributes one once-task per definition, not one per namespace.  The harness projects the
+\* copies n:x, m:x of such a definition on one task name before the program and the trace reach this model.
 KeyOf(t, v) ==
   CASE T(t).run = "always" -> <<>>
     [] T(t).run = "once"   -> <<"o", t>>
